@@ -70,6 +70,17 @@ theorem parseRawV2_encRaws (rs : List Raw) (h : RawsWF2 rs) : parseRawV2 (encRaw
   have hwf : RawsWF rs := fun r hr => RawWF_of_RawWF2 r (h r hr)
   exact rawFieldsV2_enc rs _ (by have := encRaws_length rs hwf; omega) h
 
+theorem RawsWF2_repLenR (n : Nat) (l : List Bytes) (h1 : 1 ≤ n) (h2 : n ≤ 536870911)
+    (h : ∀ b ∈ l, b.length < 2 ^ 64) : RawsWF2 (repLenR n l) := by
+  induction l with
+  | nil => intro r hr; simp [repLenR] at hr
+  | cons b l ih =>
+    intro r hr
+    simp only [repLenR, List.mem_cons] at hr
+    rcases hr with rfl | hr
+    · exact ⟨h1, h2, h b (by simp)⟩
+    · exact ih (fun x hx => h x (by simp [hx])) r hr
+
 theorem method4_length (m : Bytes) : (method4 m).length = 4 := by
   unfold method4
   simp only [List.length_append, List.length_replicate, List.length_take]
